@@ -292,14 +292,14 @@ def expected_suspensions(o, susp, fl):
             f = fl["src"][i - 1] if isinstance(fl["src"], list) and i >= 1 else (fl.get("outer") if i == 0 else fl["src"])
             if isinstance(fl["src"], list) and i == 0:
                 f = fl.get("outer", "cls")
-            if f in ("cls", "agen", "clsnoclose"):
+            if f in ("cls", "agen", "clsnoclose", "clstruthy", "clsraiseclose"):
                 n += susp
         elif e["ev"] == "call" and fl["call"] != "def":
             n += susp
         elif e["ev"] == "await":
             n += susp
     for h in o.handles:           # asynchronous closes of class-based sources suspend as well
-        if type(h).__name__ in ("ClsSource", "ClsSourceTruthyClose"):
+        if type(h).__name__ in ("ClsSource", "ClsSourceTruthyClose", "ClsSourceRaisingClose"):
             n += susp * o.closes.get(getattr(h, "idx", -1), 0)   # (closes deferred to the loop come later)
     return n
 
@@ -315,6 +315,7 @@ def c17_case(args):
               {"src": ["cls"] * n, "call": "obj", "outer": "cls"}]
     if n >= 2:
         combos.append({"src": ["cls", "iter"] + ["agen"] * (n - 2), "call": "def", "outer": "cls"})
+        combos.append({"src": ["clsraiseclose"] * n, "call": "asyncdef", "outer": "cls"})     # failing closes need no loop either
     runs = 0
     for fl in combos:
         before = len(_LOOP_CALLS)
